@@ -27,6 +27,7 @@ import sys
 import tempfile
 
 from vp.core import Ctx, Fail, SubCheck, Tally, call, jsonable, VERIF_DIR
+from props.c14 import warm_hypothesis_constants
 from vp.refs import mbxml_ref as R
 
 LEVEL = "exploration"
@@ -675,6 +676,7 @@ def _doc_nontrivial(case):
 
 def drv_documents(ctx: Ctx, sub: SubCheck):
     S = _strategies()
+    warm_hypothesis_constants()
 
     def rec(c, t: Tally):
         t.case(sub.name, key=c, nontrivial=_doc_nontrivial(c))
@@ -689,6 +691,7 @@ def drv_documents(ctx: Ctx, sub: SubCheck):
 
 def drv_lookup(ctx: Ctx, sub: SubCheck):
     S = _strategies()
+    warm_hypothesis_constants()
 
     def rec(c, t: Tally):
         unresolved = _LAST.get("unresolved", False)
@@ -723,6 +726,7 @@ def _rec_bytes(sub_name):
 
 def drv_mutated(ctx: Ctx, sub: SubCheck):
     S = _strategies()
+    warm_hypothesis_constants()
 
     def hyp(shard, t: Tally):
         ctx.hypothesis(sub.name, S["mutated"], oracle_bytes, ctx.pick(150, 4000), tally=t, shard=shard, record=_rec_bytes(sub.name))
